@@ -45,6 +45,8 @@ FORMS = [
     "Integer() | String()", "int | str", "int | None", "Integer | None", "list[int] | None", "list[int | str]",
     "Array[int | str]", "Union[int, int]", "Union[int, Integer]", "Optional[int | str]", "Integer | list[int]",
     "Array(items=int)", "list[None]", "List[None]", "Array[None]",
+    "tuple[int]", "typing.Tuple[int]", "Tuple[Integer]", "Tuple[int]", "Tuple(items=Integer)", "Tuple(items=Integer())",
+    "tuple[Integer]", "tuple[int, str]", "Tuple[Integer, String]",
 ]
 
 FORM_NS_SRC = """
